@@ -8,7 +8,7 @@ import (
 )
 
 func init() {
-	registerRule("thread-args", 30, "at every call between expander family members the base path and loader arguments derive from the caller's own, from id re-scoping, or from the resolver of the reference just followed", ruleThreadArgs)
+	registerRule("thread-args", 48, "at every call between expander family members the base path and loader arguments derive from the caller's own, from id re-scoping, or from the resolver of the reference just followed", ruleThreadArgs)
 	registerRule("switch-on-follow", 3, "after a followed $ref the resolution scope switches: transitiveResolver and updateBasePath results are what the recursive expansion receives", ruleSwitchOnFollow)
 	registerRule("skip-shape", 5, "skip-schemas mode: definitions are not expanded, schema $refs are rebased without resolving, everything else is still expanded", ruleSkipShape)
 }
